@@ -1356,6 +1356,7 @@ pub fn run_nat(
         let w = NatWorker::new(ctx.shard);
         let shard = ctx.shard;
         let resumed = ctx.resume_after.is_some() || ctx.only.is_some();
+        let single = ctx.only.is_some();
         let mut sink = Sink {
             ctx,
             idx: 0,
@@ -1366,7 +1367,8 @@ pub fn run_nat(
             fac: InstructionInfoFactory::new(),
             tag: String::new(),
             unplaceable: 0,
-            deadline,
+            // the wall-clock cap bounds the sweep, not the confirmation of one case
+            deadline: if single { std::time::Instant::now() + std::time::Duration::from_secs(3600) } else { deadline },
             capped: false,
         };
         gen(&mut sink);
@@ -1416,12 +1418,15 @@ pub fn run_nat(
             hows.push(how);
         }
         let class = |h: &str| h.split(':').next().unwrap_or("").to_string();
-        if hows.iter().all(|h| class(h) == class(&e.how)) {
+        // "reproduces" = the case alone does not return either; when the manner differs between
+        // runs (hang vs oversized allocation of one runaway loop) the key says `no-return`
+        if hows.iter().all(|h| class(h) != "ok") {
+            let manner = if hows.iter().all(|h| class(h) == class(&e.how)) { class(&e.how) } else { "no-return".to_string() };
             let bytes = crate::common::unhex(e.desc.split('|').next().unwrap_or(""));
             let subject = decode_at(&bytes, IP)
                 .map(|d| format!("{:?}|{}", d.instr.code(), form_of(&d.instr)))
                 .unwrap_or_else(|| "?".into());
-            let key = format!("{subject}|crash:{}|", class(&e.how));
+            let key = format!("{subject}|crash:{}|", manner);
             crash_findings.push(Finding {
                 key,
                 what: format!("emulator process died ({}) on case {} [{}]", e.how, e.case_idx, e.desc),
